@@ -10,10 +10,25 @@ A history is any list of checkpoints (either `save_existing` mode, any version) 
 trainings (each ending in a weights save), each either completed or killed at a crash
 point `⟨j, inside, flushed⟩`: `j` file operations completed; if `inside = some k`, the next
 one started and `k` bytes written; and a file written through a handle that was not yet
-closed keeps only its first `flushed` bytes (any number), under whatever name it has.  After a kill the run is restarted with resume and
-goes on (so histories contain any number of kills).  `SafeAfter kind P hist` says: the
-resume after `hist` does not raise and returns the last completed checkpoint (a fresh
-start if there is none) or a checkpoint attempted after it.
+closed keeps only its first `flushed` bytes (any number), under whatever name it has.
+After a kill the run is restarted with resume and goes on (so histories contain any number
+of kills).
+
+WHAT THE CONCLUSIONS COVER.  `SafeAfter kind P hist` says exactly two things about the
+resume after `hist`: (a) it returns — no exception leaves `FlowSampler(resume=True)`; and
+(b) the checkpoint VERSION it loads is the last completed checkpoint (a fresh start if there
+is none) or a checkpoint attempted after it; with `reachable_wellformed`, the file it was
+loaded from is complete, never torn.  `SafeAfter` says NOTHING about which flow weights
+come back with that checkpoint; that is the subject of `weights_back_partial` (one killed
+save comes back with the right weights), `weights_path_never_drifts`, and
+`weights_back_two_kills_witness`, which proves that the code as it is can still come back with
+NO weights (an untrained flow) after two consecutive killed saves — a known finding; the two
+other `…_witness` theorems record, against the earlier reload shapes, what commits e1ff52c
+and d143089 repaired.
+NOT covered by any theorem, checked only by the harness oracle on the real code: that the
+unpickled object equals the state that was pickled (the model has only complete/torn), and
+that sampling can continue from it (the harness goes on checkpointing / training / sampling
+with every resumed object, and runs killed real runs to their end).
 -/
 set_option linter.unusedSimpArgs false
 namespace NessaiVerif.C11
@@ -37,84 +52,101 @@ example : ∃ j, j < 9 ∧ ((replay .std Gen.protocol [.ckpt true 1 0 9 none,
 example : ∃ j, j < 9 ∧ ((replay .std Gen.protocol [.ckpt true 1 0 9 none,
     .ckpt true 2 0 9 (some ⟨j, none, 4⟩)]).fs ⟨.ckpt, .temp⟩) = .torn 4 .tornPickle := by decide
 
-/-- Checkpoint protocol, both samplers, both `save_existing` modes, every history in which
-no weights save is killed inside its write (checkpoints may be killed anywhere, any number
-of times): the resume never raises and returns the previous or the new checkpoint, or
-starts afresh when none had completed. -/
-theorem crash_safe_state (kind : Kind) (hist : List Ev) (h : ∀ e ∈ hist, e.noTornTrain = true) :
-    SafeAfter kind Gen.protocol hist := by
+/-- THE HEADLINE.  Both samplers, both `save_existing` modes, EVERY history — checkpoints and
+weight saves killed anywhere (between operations, inside the pickle write, inside
+`torch.save`, before a close), any number of times: the resume never raises and loads the
+previous or the new checkpoint, or starts afresh when none had completed.  (For the
+standard sampler this rests on the weights reload of `FlowProposal.resume` passing
+`WeightsHandler.safe`, re-decided here from the generated shape on every run; it did not
+before commit 82a3f13, see `weights_crash_safe_of_handler_fails_without`.) -/
+theorem crash_safe_state (kind : Kind) (hist : List Ev) : SafeAfter kind Gen.protocol hist := by
   cases kind with
   | ins => exact ins_hist_safe Gen.protocol gen_dumpSpec gen_saveSpec (gen_resumeSpec _) hist
   | std =>
-    exact std_hist_safe Gen.protocol gen_dumpSpec (gen_resumeSpec _)
-      (fun fs => (fs wb).isTorn = false) (fun e => e.noTornTrain = true)
-      (fun fs hq n => gen_untorn_ok fs hq n)
-      (fun fs fs' hf hq => by rw [hf wb (by simp)]; exact hq)
-      (fun fs w len e cp hok hq => train_keeps_untorn fs w len e cp hok hq)
-      rfl hist h
+    exact std_hist_safe Gen.protocol gen_dumpSpec (gen_resumeSpec _) (fun _ => True) (fun _ => True)
+      (fun fs _ n => safe_handler_ok Gen.weightsHandler (by decide) fs n) (fun _ _ _ _ => trivial)
+      (fun _ _ _ _ _ _ _ => trivial) trivial hist (fun _ _ => trivial)
 
-example : ∀ e ∈ [Ev.ckpt true 1 0 9 none, .train 1 20 .runtime none, .ckpt false 2 1 9 (some ⟨2, some 3, 0⟩),
-    .train 2 20 .runtime (some ⟨2, none, 0⟩), .ckpt true 3 1 9 (some ⟨2, none, 0⟩)], e.noTornTrain = true := by decide
+example : SafeAfter .std Gen.protocol [.train 1 20 .osError none, .ckpt true 1 1 9 none,
+    .train 2 20 .osError (some ⟨2, some 5, 0⟩), .ckpt true 2 1 9 (some ⟨3, none, 4⟩)] :=
+  crash_safe_state .std _
 
-/-- The same statement for the standard sampler alone, named for what it leaves out:
-a kill INSIDE the in-place `torch.save` of `FlowModel.save_weights` is excluded
-(hypothesis `noTornTrain`); kills between its operations are covered. -/
-theorem weights_crash_safe_partial (hist : List Ev) (h : ∀ e ∈ hist, e.noTornTrain = true) :
-    SafeAfter .std Gen.protocol hist :=
-  crash_safe_state .std hist h
+/-- The standard sampler's weights protocol: a kill anywhere in `FlowModel.save_weights`
+(in-place `torch.save` included), in any history, never makes the resume raise
+(`crash_safe_state` at `Kind.std`, under the name the design gives it). -/
+theorem weights_crash_safe (hist : List Ev) : SafeAfter .std Gen.protocol hist :=
+  crash_safe_state .std hist
 
-example : ∀ e ∈ [Ev.train 1 20 .runtime none, .ckpt true 1 1 9 none, .train 2 20 .runtime (some ⟨1, none, 0⟩)],
-    e.noTornTrain = true := by decide
+/-- Importance sampler: the per-level weights layout is crash-safe for EVERY history, kills
+inside a level's weights write included — a torn `level_k/model.pt` is always beyond the
+level count recorded in any checkpoint on disk, so `load_all_weights` never reads it. -/
+theorem ins_levels_safe (hist : List Ev) : SafeAfter .ins Gen.protocol hist :=
+  crash_safe_state .ins hist
 
-/-- … and the excluded case is a real counter-example (defect F3) whenever the weights
-reload has no `try` (the shape it has in the source today): one completed training and
-checkpoint, then a kill 5 bytes into the write of the next weights save (operation `j`)
-— the resume raises. -/
-theorem weights_crash_safe_partial_fails_without :
-    (∃ j, j < 9 ∧ resume .std (Gen.resumeCfgWith ⟨true, true, [], .reraise⟩) 0
-      (replay .std (Gen.protocolWith ⟨true, true, [], .reraise⟩)
+example : ∃ j, j < 9 ∧ ((replay .ins Gen.protocol [.train 1 20 .runtime none, .ckpt false 1 0 9 none,
+    .train 2 20 .runtime (some ⟨j, some 7, 0⟩)]).fs ⟨.level 1, .base⟩) = .torn 7 .runtime := by decide
+
+/-- Why `crash_safe_state` holds for the standard sampler, for ANY weights-reload shape `h`
+(not only today's): if `h.safe` (the reload is skipped when no weights were saved, a missing
+file is tolerated, everything `torch.load` raises on a torn file — `RuntimeError`, `OSError`,
+`EOFError`, `UnpicklingError` — is caught, and the handler carries on or falls back to `.old`
+tolerating the same failures), the resume never raises, in every history. -/
+theorem weights_crash_safe_of_handler (h : WeightsHandler) (hs : h.safe = true) (hist : List Ev) :
+    SafeAfter .std (Gen.protocolWith h) hist :=
+  std_hist_safe (Gen.protocolWith h) gen_dumpSpec (gen_resumeSpec h) (fun _ => True) (fun _ => True)
+    (fun fs _ n => safe_handler_ok h hs fs n) (fun _ _ _ _ => trivial) (fun _ _ _ _ _ _ _ => trivial)
+    trivial hist (fun _ _ => trivial)
+
+example : SafeAfter .std (Gen.protocolWith ⟨true, true, [.RuntimeError, .OSError, .EOFError, .UnpicklingError], .skip, false, false⟩)
+    [.train 1 20 .osError none, .ckpt true 1 1 9 none, .train 2 20 .osError (some ⟨2, some 5, 0⟩)] :=
+  weights_crash_safe_of_handler _ (by decide) _
+
+/-- … and without `h.safe` it fails: with the reload shape the source had before commit
+82a3f13 (no `try` around the reload: finding F3, fixed) one completed training and
+checkpoint followed by a kill 5 bytes into the write of the next weights save (operation
+`j`) makes the resume raise. -/
+theorem weights_crash_safe_of_handler_fails_without :
+    (∃ j, j < 9 ∧ resume .std (Gen.resumeCfgWith ⟨true, true, [], .reraise, false, false⟩) 0
+      (replay .std (Gen.protocolWith ⟨true, true, [], .reraise, false, false⟩)
         [.train 1 20 .runtime none, .ckpt true 1 1 9 none, .train 2 20 .runtime (some ⟨j, some 5, 0⟩)]).fs
       = .raises .fileNotFound) ∧
-    (∃ j, j < 9 ∧ resume .std (Gen.resumeCfgWith ⟨true, true, [], .reraise⟩) 0
-      (replay .std (Gen.protocolWith ⟨true, true, [], .reraise⟩)
+    (∃ j, j < 9 ∧ resume .std (Gen.resumeCfgWith ⟨true, true, [], .reraise, false, false⟩) 0
+      (replay .std (Gen.protocolWith ⟨true, true, [], .reraise, false, false⟩)
         [.train 1 20 .osError none, .ckpt true 1 1 9 none, .ckpt true 2 1 9 none,
          .train 2 20 .osError (some ⟨j, some 5, 0⟩)]).fs = .raises .osError) := by
   constructor <;> decide
 
-/-- The counter-example in general (defect F3), for ANY weights-reload shape `h` that does
-not catch what `torch.load` raises on the torn file (`e`: `RuntimeError`, `OSError`,
-`EOFError` or `UnpicklingError` depending on where the file was cut): whenever the
-checkpoint refers to the weights file, that file is torn, and `.old` is missing or refers
-to the weights too, the resume raises — whatever the versions and the cut. -/
-theorem weights_torn_witness (h : WeightsHandler) (fs : FS) (top v n k : Nat) (e : Exc) (hn : n ≠ 0)
+/-- The same counter-example in general, for ANY weights-reload shape `h` that does not catch
+what `torch.load` raises on the torn file (`e`: `RuntimeError`, `OSError`, `EOFError` or
+`UnpicklingError` depending on where the file was cut): whenever the checkpoint refers to
+`model.pt`, that file is torn, and `.old` is missing or refers to it too, the resume raises —
+whatever the versions and the cut.  (This was finding F3; today's source catches `Exception`.) -/
+theorem weights_torn_witness (h : WeightsHandler) (fs : FS) (top v k : Nat) (e : Exc)
     (hc : catches h.excs e = false)
-    (hb : fs cb = .complete v n) (hw : fs wb = .torn k e)
-    (ho : fs co = .absent ∨ ∃ v' n', n' ≠ 0 ∧ fs co = .complete v' n') :
+    (hb : fs cb = .complete v 1) (hw : fs wb = .torn k e)
+    (ho : fs co = .absent ∨ ∃ v', fs co = .complete v' 1) :
     (resume .std (Gen.resumeCfgWith h) top fs).version = none := by
-  have hb' : fs ⟨.ckpt, .base⟩ = .complete v n := hb
+  have hb' : fs ⟨.ckpt, .base⟩ = .complete v 1 := hb
   have hw' : fs ⟨.weights, .base⟩ = .torn k e := hw
-  have hres : ∀ m, m ≠ 0 → stdWeightsResume h fs m = some e := by
-    intro m hm
-    simp [stdWeightsResume, loadWeights, FS.has, hw', Content.exists?, hm, hc]
-  rcases ho with ho | ⟨v', n', hn', ho⟩
+  have hres : stdWeightsResume h fs 1 = some e := by
+    simp [stdWeightsResume, loadWeights, loadContent, primary, FS.has, hw', Content.exists?, hc]
+  rcases ho with ho | ⟨v', ho⟩
   · have ho' : fs ⟨.ckpt, .old⟩ = .absent := ho
     cases e <;>
-      simp [resume, attempt, weightsResume, hres n hn, Gen.resumeCfgWith, FS.has, hb', ho',
+      simp [resume, attempt, weightsResume, hres, Gen.resumeCfgWith, FS.has, hb', ho',
         Content.exists?, catches, ExcName.covers, Outcome.version]
-  · have ho' : fs ⟨.ckpt, .old⟩ = .complete v' n' := ho
+  · have ho' : fs ⟨.ckpt, .old⟩ = .complete v' 1 := ho
     cases e <;>
-      simp [resume, attempt, weightsResume, hres n hn, hres n' hn', Gen.resumeCfgWith, FS.has, hb', ho',
+      simp [resume, attempt, weightsResume, hres, Gen.resumeCfgWith, FS.has, hb', ho',
         Content.exists?, catches, ExcName.covers, Outcome.version]
 
-example : catches (WeightsHandler.mk true true [] .reraise).excs .osError = false := by decide
-example : ∃ j, j < 9 ∧
-    let fs := (replay .std (Gen.protocolWith ⟨true, true, [], .reraise⟩) [.train 1 20 .runtime none,
-      .ckpt true 1 1 9 none, .train 2 20 .runtime (some ⟨j, some 5, 0⟩)]).fs
-    fs cb = .complete 1 1 ∧ fs wb = .torn 5 .runtime ∧ fs co = .absent := by decide
+example : (resume .std (Gen.resumeCfgWith ⟨true, true, [.RuntimeError], .skip, false, false⟩) 0
+    ((emptyFS.set cb (.complete 1 1)).set wb (.torn 4100 .osError))).version = none :=
+  weights_torn_witness _ _ 0 1 4100 .osError (by decide) (by decide) (by decide) (Or.inl (by decide))
 
-/-- What a repair can rely on: when a weights save that started from a complete weights
-file is killed anywhere, the previous weights are still complete on disk, in the file itself
-or in `.old` (or the new ones are complete). -/
+/-- What the fallback to `.old` relies on: when a weights save that started from a complete
+weights file is killed anywhere, the previous weights are still complete on disk, in the file
+itself or in `.old` (or the new ones are complete). -/
 theorem weights_old_survives (fs : FS) (w0 w len : Nat) (e : Exc) (cp : CrashPt) (hw : fs wb = .complete w0 0) :
     crashState Gen.protocol.saveWeights .weights ⟨w, 0, len, e⟩ fs cp wb = .complete w0 0 ∨
     crashState Gen.protocol.saveWeights .weights ⟨w, 0, len, e⟩ fs cp wo = .complete w0 0 ∨
@@ -126,50 +158,114 @@ theorem weights_old_survives (fs : FS) (w0 w len : Nat) (e : Exc) (cp : CrashPt)
   · exact Or.inr (Or.inl (h2.trans hw'))
   · rw [hw'] at h2; cases h2
 
-example : (replay .std Gen.protocol [.train 1 20 .runtime none]).fs wb = .complete 1 0 := by decide
+example : crashState Gen.protocol.saveWeights .weights ⟨2, 0, 20, .osError⟩
+      (replay .std Gen.protocol [.train 1 20 .runtime none]).fs ⟨2, some 5, 0⟩ wb = .complete 1 0 ∨
+    crashState Gen.protocol.saveWeights .weights ⟨2, 0, 20, .osError⟩
+      (replay .std Gen.protocol [.train 1 20 .runtime none]).fs ⟨2, some 5, 0⟩ wo = .complete 1 0 ∨
+    crashState Gen.protocol.saveWeights .weights ⟨2, 0, 20, .osError⟩
+      (replay .std Gen.protocol [.train 1 20 .runtime none]).fs ⟨2, some 5, 0⟩ wb = .complete 2 0 :=
+  weights_old_survives _ 1 2 20 .osError ⟨2, some 5, 0⟩ (by decide)
 
-/-- The repair, stated for the code that would contain it: if the weights reload of
-`FlowProposal.resume` has the shape `h` and `h.safe` holds (the reload is skipped when no
-weights were saved, a missing file is tolerated, `RuntimeError`, `OSError`, `EOFError` and
-`UnpicklingError` — everything `torch.load` raises on a torn file — are caught, and the
-handler either carries on or falls back to `.old` tolerating the same failures), then the
-standard sampler is crash-safe for EVERY history, kills inside the weights write included.
-Whether the source passes is decided in `weights_crash_safe_status`. -/
-theorem weights_crash_safe_of_handler (h : WeightsHandler) (hs : h.safe = true) (hist : List Ev) :
-    SafeAfter .std (Gen.protocolWith h) hist :=
-  std_hist_safe (Gen.protocolWith h) gen_dumpSpec (gen_resumeSpec h) (fun _ => True) (fun _ => True)
-    (fun fs _ n => safe_handler_ok h hs fs n) (fun _ _ _ _ => trivial) (fun _ _ _ _ _ _ _ => trivial)
-    trivial hist (fun _ _ => trivial)
+/-- WHICH WEIGHTS COME BACK (standard sampler) — weaker than the property, hence `_partial`.
+From a state in which the last weights save completed (`model.pt` holds version `L`) and
+the checkpoint a resume will load (`(v, n)`) records no weights (`n = 0`) or `model.pt`
+(`n = 1`; by `weights_path_never_drifts` these are the only cases), ONE kill ANYWHERE in the
+next weights save (version `w`) — between the move and the save included — is survived with
+the right weights: the resume loads checkpoint `v`, the flow holds the last completely
+saved weights `L` (read from `model.pt` or, when that file is missing or torn, from
+`model.pt.old`) or the new ones `w` if their write had in fact completed, and the path it
+records afterwards is `model.pt` again; a checkpoint that recorded no weights gets none.
+GAP to the property: hypothesis `hw` (the previous save completed) is needed — after two
+consecutive killed saves the code comes back with an UNTRAINED flow
+(`weights_back_two_kills_witness`, a known finding). -/
+theorem weights_back_partial (fs : FS) (top L w len v n : Nat) (e : Exc) (cp : CrashPt)
+    (hg : CkptGood fs (some (v, n))) (hw : fs wb = .complete L 0) :
+    ∃ wl m, resume .std Gen.protocol.cfg top
+        (crashState Gen.saveWeightsProg .weights ⟨w, 0, len, e⟩ fs cp) = .loaded v n wl m ∧
+      (n = 0 → wl = 0) ∧ (n = 1 → (wl = L ∨ wl = w) ∧ m = 1) := by
+  have hw' : fs ⟨.weights, .base⟩ = .complete L 0 := hw
+  have hg' : CkptGood (crashState Gen.saveWeightsProg .weights ⟨w, 0, len, e⟩ fs cp) (some (v, n)) :=
+    hg.congr (crashState_frame _ _ _ _ _ _ (by simp)) (crashState_frame _ _ _ _ _ _ (by simp))
+  have hres := gen_resumeSpec Gen.weightsHandler .std top _ _ hg'
+    (fun _ _ n' _ _ => safe_handler_ok Gen.weightsHandler (by decide) _ n')
+  refine ⟨_, _, hres, ?_, ?_⟩
+  · intro h0
+    simp [weightsBack, stdWeightsBack, h0]
+  · intro h1
+    rcases gen_saveSpec.views .weights ⟨w, 0, len, e⟩ fs cp with ⟨e1, _⟩ | ⟨_, e1, e2⟩ | ⟨e1 | ⟨k, _, e1⟩, e2⟩
+    · simp [weightsBack, stdWeightsBack, Gen.resumeCfgWith, Gen.weightsHandler, h1, primary, FS.has,
+        e1, hw', Content.exists?]
+    · simp [weightsBack, stdWeightsBack, fallbackBack, fallbackContent, Gen.resumeCfgWith,
+        Gen.weightsHandler, h1, primary, FS.has, e1, e2, hw', Content.exists?]
+    · simp [weightsBack, stdWeightsBack, Gen.resumeCfgWith, Gen.weightsHandler, h1, primary, FS.has,
+        e1, Content.exists?]
+    · rcases e2 with ⟨_, e2⟩ | ⟨e2, _⟩
+      · simp [weightsBack, stdWeightsBack, fallbackBack, fallbackContent, Gen.resumeCfgWith,
+          Gen.weightsHandler, h1, primary, FS.has, e1, e2, hw', Content.exists?]
+      · rw [hw'] at e2; cases e2
 
-example : (WeightsHandler.mk true true [.RuntimeError, .OSError, .EOFError, .UnpicklingError]
-    (.loadOld true [.RuntimeError, .OSError, .EOFError, .UnpicklingError])).safe = true := by decide
+-- applied to the kill BETWEEN the move and the save (the point that used to lose the weights)
+example : ∃ wl m, resume .std Gen.protocol.cfg 0
+      (crashState Gen.saveWeightsProg .weights ⟨2, 0, 20, .osError⟩
+        (replay .std Gen.protocol [.train 1 20 .runtime none, .ckpt true 1 1 9 none]).fs ⟨2, none, 0⟩)
+      = .loaded 1 1 wl m ∧ ((1 : Nat) = 0 → wl = 0) ∧ ((1 : Nat) = 1 → (wl = 1 ∨ wl = 2) ∧ m = 1) :=
+  weights_back_partial _ 0 1 2 20 1 1 .osError ⟨2, none, 0⟩
+    ⟨by decide, by decide, Or.inl (by decide)⟩ (by decide)
 
-/-- Where the source stands TODAY, re-decided on every run from the generated
-`Gen.weightsHandler`: either the weights reload passes `WeightsHandler.safe` and the standard
-sampler is crash-safe for every history (this is `weights_crash_safe`, the branch that
-will hold once F3 is repaired by a resume-side fallback), or it does not and a single kill
-inside one weights save after one completed training and checkpoint makes the resume raise
-(F3; the branch that holds for the source as it is). -/
-theorem weights_crash_safe_status :
-    (Gen.weightsHandler.safe = true ∧ ∀ hist, SafeAfter .std Gen.protocol hist) ∨
-    (Gen.weightsHandler.safe = false ∧
-      ∃ j, j < 9 ∧ (resume .std Gen.protocol.cfg 0 (replay .std Gen.protocol
-        [.train 1 20 .osError none, .ckpt true 1 1 9 none,
-         .train 2 20 .osError (some ⟨j, some 5, 0⟩)]).fs).version = none) := by
-  first
-    | exact Or.inl ⟨by decide, fun hist => weights_crash_safe_of_handler Gen.weightsHandler (by decide) hist⟩
-    | exact Or.inr ⟨by decide, by decide⟩
+/-- The recorded weights path NEVER drifts: after every history of the standard sampler
+(any kills anywhere, any number), the flow's in-memory `weights_file` and the path pickled
+in every checkpoint on disk are none or `model.pt` — never `model.pt.old`.  (Rests on
+`self.flow.weights_file = weights_file` after a fallback reload, commit d143089.) -/
+theorem weights_path_never_drifts (hist : List Ev) :
+    (replay .std Gen.protocol hist).mem ≤ 1 ∧
+    ∀ p v n, (p = cb ∨ p = co) → (replay .std Gen.protocol hist).fs p = .complete v n → n ≤ 1 :=
+  hist_no_drift hist initSys (by decide) (fun p v n _ h => by simp [initSys, emptyFS] at h)
 
 example : ∃ j, j < 9 ∧ (replay .std Gen.protocol [.train 1 20 .osError none, .ckpt true 1 1 9 none,
-    .train 2 20 .osError (some ⟨j, some 5, 0⟩)]).fs wb = .torn 5 .osError := by decide
+    .train 2 20 .osError (some ⟨j, some 5, 0⟩), .ckpt true 2 1 9 none]).fs cb = .complete 2 1 := by decide
 
-/-- Importance sampler: the per-level weights layout is crash-safe for EVERY history, kills
-inside a level's weights write included — a torn `level_k/model.pt` is always beyond the
-level count recorded in any checkpoint on disk, so `load_all_weights` never reads it. -/
-theorem ins_levels_safe (hist : List Ev) : SafeAfter .ins Gen.protocol hist :=
-  ins_hist_safe Gen.protocol gen_dumpSpec gen_saveSpec (gen_resumeSpec _) hist
+/-- RESIDUAL DEFECT, KNOWN FINDING (hypothesis `hw` of `weights_back_partial` is needed): two
+consecutive killed weights saves.  The first leaves a torn `model.pt` and the good weights in
+`.old`; the restarted run's next save moves the TORN file over `.old` and is killed in its
+write: both files are torn, the reload and its fallback both fail and are swallowed, and the
+checkpoint comes back with an untrained flow.  (`FlowModel.save_weights` is unchanged.) -/
+theorem weights_back_two_kills_witness :
+    ∃ j, j < 9 ∧ resume .std Gen.protocol.cfg 0 (replay .std Gen.protocol
+      [.train 1 20 .osError none, .ckpt true 1 1 9 none, .train 2 20 .osError (some ⟨j, some 5, 0⟩),
+       .train 3 20 .osError (some ⟨j, some 5, 0⟩)]).fs = .loaded 1 1 0 0 := by
+  decide
 
-example : ∃ j, j < 9 ∧ ((replay .ins Gen.protocol [.train 1 20 .runtime none, .ckpt false 1 0 9 none,
-    .train 2 20 .runtime (some ⟨j, some 7, 0⟩)]).fs ⟨.level 1, .base⟩) = .torn 7 .runtime := by decide
+/-- What commit e1ff52c repaired, against the reload shape the source had before it (fallback
+only inside the `except` body): a single kill BETWEEN the move of `model.pt` to `.old` and the
+`torch.save` left no `model.pt`; the reload was skipped silently although the complete previous
+weights sat in `.old`, and the checkpoint came back with an untrained flow. -/
+theorem weights_back_missing_file_witness :
+    ∃ j, j < 9 ∧
+      (replay .std (Gen.protocolWith ⟨true, true, [.Exception], .loadOld true [.Exception], false, false⟩)
+        [.train 1 20 .runtime none, .ckpt true 1 1 9 none,
+         .train 2 20 .runtime (some ⟨j, none, 0⟩)]).fs wo = .complete 1 0 ∧
+      resume .std (Gen.resumeCfgWith ⟨true, true, [.Exception], .loadOld true [.Exception], false, false⟩) 0
+        (replay .std (Gen.protocolWith ⟨true, true, [.Exception], .loadOld true [.Exception], false, false⟩)
+          [.train 1 20 .runtime none, .ckpt true 1 1 9 none,
+           .train 2 20 .runtime (some ⟨j, none, 0⟩)]).fs = .loaded 1 1 0 0 := by
+  decide
+
+/-- What commit d143089 repaired, against the shape before it (fallback without
+`self.flow.weights_file = weights_file`): after ONE fallback the flow recorded `model.pt.old`
+(code 2), the next checkpoint pickled that path, the next completed save rotated the torn file
+over `.old`, and a kill before the following checkpoint completed resumed the drifted
+checkpoint with an untrained flow although `model.pt` held complete weights. -/
+theorem weights_back_path_drift_witness :
+    ∃ j, j < 9 ∧ ∃ i, i < 9 ∧
+      (replay .std (Gen.protocolWith ⟨true, true, [.Exception], .loadOld true [.Exception], true, false⟩)
+        [.train 1 20 .osError none, .ckpt true 1 1 9 none,
+         .train 2 20 .osError (some ⟨j, some 5, 0⟩), .ckpt true 2 1 9 none, .train 3 20 .osError none,
+         .ckpt true 3 1 9 (some ⟨i, some 4, 0⟩)]).fs wb = .complete 3 0 ∧
+      resume .std (Gen.resumeCfgWith ⟨true, true, [.Exception], .loadOld true [.Exception], true, false⟩) 0
+        (replay .std (Gen.protocolWith ⟨true, true, [.Exception], .loadOld true [.Exception], true, false⟩)
+          [.train 1 20 .osError none, .ckpt true 1 1 9 none, .train 2 20 .osError (some ⟨j, some 5, 0⟩),
+           .ckpt true 2 1 9 none, .train 3 20 .osError none,
+           .ckpt true 3 1 9 (some ⟨i, some 4, 0⟩)]).fs = .loaded 2 2 0 0 := by
+  decide
 
 end NessaiVerif.C11
